@@ -180,7 +180,13 @@ func catalogCheck(args []string) (any, error) {
 			bad = append(bad, fmt.Sprintf("datetime %v: unknown layout/precision in an ok entry", d))
 			continue
 		}
-		if got := time.Unix(0, v*u).UTC().Format(lay); got != d.Out {
+		// the instant v units after the epoch, without going through a nanosecond count (v * unit overflows int64 beyond year 2262)
+		perSec := int64(1e9) / u
+		sec, rem := v/perSec, v%perSec
+		if rem < 0 {
+			sec, rem = sec-1, rem+perSec
+		}
+		if got := time.Unix(sec, rem*u).UTC().Format(lay); got != d.Out {
 			bad = append(bad, fmt.Sprintf("datetime %v: standard library %q, catalog %q", d, got, d.Out))
 		}
 	}
